@@ -477,23 +477,31 @@ func c03Sequence(c *Ctx, fn *ssa.Function, em *types.Named) {
 		evs = append(evs, e)
 	})
 	sort.Slice(evs, func(i, j int) bool { return evs[i].order < evs[j].order })
+	// three groups: with headers, without headers, and the common tail (rows, bottom rule); the order of the two
+	// branches in the source is immaterial, the tail must follow both
 	var got []string
+	group := map[string][]string{}
+	lastBranch, firstTail := -1, 1<<60
 	for _, e := range evs {
-		got = append(got, strings.TrimSpace(fmt.Sprintf("%s/%d %s %s", e.name, e.depth, e.hdr, e.sep)))
-	}
-	want := []string{"LineHeaderTop/0 hdr", "HeaderLineRendered/1 hdr", "LineHeaderBodySep/0 hdr", "LineBodyTop/0 nohdr", "LineSeparator/1  sep", "BodyLineRendered/2  row", "LineBottom/0"}
-	norm := func(ss []string) string {
-		var out []string
-		for _, s := range ss {
-			out = append(out, strings.Join(strings.Fields(s), " "))
+		desc := strings.Join(strings.Fields(fmt.Sprintf("%s/%d %s", e.name, e.depth, e.sep)), " ")
+		group[e.hdr] = append(group[e.hdr], desc)
+		if e.hdr != "" && e.order > lastBranch {
+			lastBranch = e.order
 		}
-		return strings.Join(out, "; ")
+		if e.hdr == "" && e.order < firstTail {
+			firstTail = e.order
+		}
 	}
+	for _, g := range []string{"hdr", "nohdr", ""} {
+		got = append(got, "["+g+"] "+strings.Join(group[g], "; "))
+	}
+	want := []string{"[hdr] LineHeaderTop/0; HeaderLineRendered/1; LineHeaderBodySep/0", "[nohdr] LineBodyTop/0", "[] LineSeparator/1 sep; BodyLineRendered/2 row; LineBottom/0"}
+	norm := func(ss []string) string { return strings.Join(ss, " | ") }
 	var pos token.Pos
 	if len(evs) > 0 {
 		pos = evs[0].in.Pos()
 	}
-	r.Check("R03.5", FuncName(fn), "lines are written in the documented sequence", pos, norm(got) == norm(want), "got ["+norm(got)+"] want ["+norm(want)+"]")
+	r.Check("R03.5", FuncName(fn), "lines are written in the documented sequence", pos, norm(got) == norm(want) && lastBranch < firstTail, "got "+norm(got)+" want "+norm(want))
 	// the bottom rule is written on every successful path; the top rule precedes everything else in its branch
 	for _, e := range evs {
 		var w ssa.Instruction
